@@ -201,6 +201,13 @@ func main() {
 	rootFlag := flag.String("root", "", "verif root (default /verif or $VERIF_ROOT)")
 	selftest := flag.String("selftest", "", "determinism: run the same seeds in several fresh processes at GOMAXPROCS 1/4/16 and diff the event logs")
 	flag.Parse()
+	// the verif root is where this binary lives (<root>/bin/check), so that a
+	// snapshot of /verif works on its own evidence and build directories
+	if exe, err := os.Executable(); err == nil {
+		if d := filepath.Dir(filepath.Dir(exe)); filepath.Base(filepath.Dir(exe)) == "bin" {
+			root = d
+		}
+	}
 	if r := os.Getenv("VERIF_ROOT"); r != "" {
 		root = r
 	}
